@@ -32,6 +32,7 @@ package keeper
 //@ family owners      key types.GetOwnerKey value gogotypes.BytesValue
 //@ family ownerProv   key types.GetOwnerProviderKey value bytes slice 21:=1 prefix types.GetOwnerProvidersSubspace
 //@ family wdAddr      key types.GetWithdrawAddrKey value bytes
+//@ family ownerBind   key types.GetOwnerServiceBindingKey value unit
 
 // the tally of account a in table T as a Coins value, denomination by denomination
 //@ define tally(T, a, d) = ite(has(T, a, d), get(T, a, d).Amount, 0)
@@ -176,6 +177,8 @@ package keeper
 //@                             && bal(WD(owner), d) == old(bal(WD(owner), d)) + old(tally(ownerEarned, owner, d)))
 //@   ensures ledger_frame: forall a:Bytes :: forall d:Str :: a != REQ && a != WD(owner) ==> bal(a, d) == old(bal(a, d))
 //@   ensures others: (forall a:Bytes :: forall d:Str :: a != owner ==> has(ownerEarned, a, d) == old(has(ownerEarned, a, d)) && get(ownerEarned, a, d) == old(get(ownerEarned, a, d)))
+//@   lemma @return earnDiff(old(earned), earned, provider) if err == nil && !isempty(provider)
+//@   ensures request_inv: err == nil && !isempty(provider) && old(requestInv) && WD(owner) != REQ ==> requestInv
 //@ end
 
 // ---------------------------------------------------------------------------------------------
@@ -223,6 +226,15 @@ package keeper
 //@ end
 
 // ---------------------------------------------------------------------------------------------
+// C07 module invariant for deposits: the deposit escrow equals the sum of all bindings' recorded deposits
+// (finite sum as an uninterpreted function with its single-key update rule)
+//@ define DEPSUM(B, d) = uf("depositSum", B, d)
+//@ define depAt(B, s, p, d) = ite(has(B, s, p), amt(get(B, s, p).Deposit, d), 0)
+//@ axiom depUpd(B, s, p, v)
+//@   ensures forall d:Str :: DEPSUM(set(B, s, p, v), d) == DEPSUM(B, d) - depAt(B, s, p, d) + amt(v.Deposit, d)
+//@ define depositInv = forall d:Str :: bal(DEP, d) == DEPSUM(bindings, d)
+
+// ---------------------------------------------------------------------------------------------
 // Binding deposits (C07): the deposit escrow moves by exactly what the binding records
 
 // pricing string -> Pricing (JSON, denomination check against the base denom), minimum deposit and deposit shape:
@@ -265,6 +277,8 @@ package keeper
 //@   ensures escrowed:  err == nil ==> (forall d:Str :: bal(DEP, d) == old(bal(DEP, d)) + amt(deposit, d) && bal(owner, d) == old(bal(owner, d)) - amt(deposit, d))
 //@   ensures ledger_frame: forall a:Bytes :: forall d:Str :: a != DEP && a != owner ==> bal(a, d) == old(bal(a, d))
 //@   ensures others:    forall s:Str :: forall p:Bytes :: (s != serviceName || p != provider) ==> has(bindings, s, p) == old(has(bindings, s, p)) && BIND(s, p) == old(BIND(s, p))
+//@   lemma @return depUpd(old(bindings), serviceName, provider, BIND(serviceName, provider)) if err == nil
+//@   ensures deposit_inv: err == nil && old(depositInv) ==> depositInv
 //@ end
 
 // ---------------------------------------------------------------------------------------------
@@ -275,6 +289,20 @@ package keeper
 //@ family activeByID key types.GetActiveRequestKeyByID value unit
 //@ family activeByB  key types.GetActiveRequestKey value unit
 //@ family responses  key types.GetResponseKey value types.Response
+
+// ---------------------------------------------------------------------------------------------
+// C07 module invariant for the request escrow: fees of requests still awaiting a response plus earned fees not yet
+// withdrawn (finite sums as uninterpreted functions with their update rules)
+//@ define EARNSUM(E, d) = uf("earnedSum", E, d)
+// two tally tables that agree outside provider p differ in the sum by the difference at p
+//@ axiom earnDiff(E, E2, p)
+//@   requires forall a:Bytes :: forall d:Str :: a != p ==> has(E2, a, d) == has(E, a, d) && get(E2, a, d) == get(E, a, d)
+//@   ensures forall d:Str :: EARNSUM(E2, d) == EARNSUM(E, d) - tally(E, p, d) + tally(E2, p, d)
+//@ define ACTFEE(R, A, d) = uf("activeFeeSum", R, A, d)
+//@ define actAt(R, A, i, d) = ite(has(A, i) && has(R, i), amt(get(R, i).ServiceFee, d), 0)
+//@ axiom actDel(R, A, i)
+//@   ensures forall d:Str :: ACTFEE(R, del(A, i), d) == ACTFEE(R, A, d) - actAt(R, A, i, d)
+//@ define requestInv = forall d:Str :: bal(REQ, d) == ACTFEE(requests, activeByID, d) + EARNSUM(earned, d)
 
 // a stored compact request decodes to a full request: provider and fee come from the compact record
 //@ func Keeper.GetRequest
@@ -318,6 +346,10 @@ package keeper
 //@   ensures earned_fee: err == nil ==> (forall d:Str :: tally(earned, provider, d) == old(tally(earned, provider, d)) + amt(fee, d) - taxOf(fee, d))
 //@   ensures tax_paid:   err == nil ==> (forall d:Str :: bal(REQ, d) == old(bal(REQ, d)) - taxOf(fee, d) && bal(FEECOL, d) == old(bal(FEECOL, d)) + taxOf(fee, d))
 //@   ensures requests_kept: requests == old(requests)
+//@   lemma @return earnDiff(old(earned), earned, provider) if err == nil
+//@   lemma @return actDel(requests, old(activeByID), requestID) if err == nil
+//@   ensures request_inv: err == nil && old(requestInv) ==> requestInv
+//@   by request_inv: ens:consumed, ens:earned_fee, ens:tax_paid, ens:requests_kept, ens:addressee, lemma, req
 //@ end
 
 // ---------------------------------------------------------------------------------------------
@@ -429,6 +461,8 @@ package keeper
 //@   ensures recorded:  err == nil ==> (forall d:Str :: amt(BIND(serviceName, provider).Deposit, d) == 0)
 //@   ensures ledger_frame: forall a:Bytes :: forall d:Str :: a != DEP && a != owner ==> bal(a, d) == old(bal(a, d))
 //@   ensures others:    forall s:Str :: forall p:Bytes :: (s != serviceName || p != provider) ==> has(bindings, s, p) == old(has(bindings, s, p)) && BIND(s, p) == old(BIND(s, p))
+//@   lemma @return depUpd(old(bindings), serviceName, provider, BIND(serviceName, provider)) if err == nil
+//@   ensures deposit_inv: err == nil && old(depositInv) ==> depositInv
 //@ end
 
 // EnableServiceBinding: like an update with a deposit: what is added to the record is moved to the escrow.
@@ -445,6 +479,8 @@ package keeper
 //@   ensures recorded:  err == nil ==> BIND(serviceName, provider).Available && (forall d:Str :: amt(BIND(serviceName, provider).Deposit, d) == amt(b0.Deposit, d) + amt(deposit, d))
 //@   ensures escrowed:  err == nil ==> (forall d:Str :: bal(DEP, d) == old(bal(DEP, d)) + amt(deposit, d) && bal(owner, d) == old(bal(owner, d)) - amt(deposit, d))
 //@   ensures ledger_frame: forall a:Bytes :: forall d:Str :: a != DEP && a != owner ==> bal(a, d) == old(bal(a, d))
+//@   lemma @return depUpd(old(bindings), serviceName, provider, BIND(serviceName, provider)) if err == nil
+//@   ensures deposit_inv: err == nil && old(depositInv) ==> depositInv
 //@ end
 
 // Slash: floor(deposit * slash fraction) of the base denomination moves from the deposit escrow to the fee collector and
@@ -469,4 +505,28 @@ package keeper
 //@   ensures recorded: err == nil ==> amt(BIND(svc, prov).Deposit, BASE) == dep0 - cut
 //@                       && (forall d:Str :: d != BASE ==> amt(BIND(svc, prov).Deposit, d) == old(amt(BIND(svc, prov).Deposit, d)))
 //@   ensures ledger_frame: forall a:Bytes :: forall d:Str :: (a != DEP && a != FEECOL) || d != BASE ==> bal(a, d) == old(bal(a, d))
+//@   lemma @return depUpd(old(bindings), svc, prov, BIND(svc, prov)) if err == nil
+//@   ensures deposit_inv: err == nil && old(depositInv) ==> depositInv
+//@ end
+
+//@ func Keeper.GetServiceDefinition
+//@   property C07
+//@   trusted
+//@   returns def, found
+//@ end
+
+// AddServiceBinding: a new binding records exactly the deposit that is moved into the escrow.
+//@ func Keeper.AddServiceBinding
+//@   property C07
+//@   returns err
+//@   requires has(prm) && owner != DEP && bechok(bech(provider)) && bechok(bech(owner))
+//@   requires forall d:Str :: amt(deposit, d) >= 0
+//@   modifies bal, bindings, pricings, owners, ownerProv, ownerBind
+//@   ensures fresh:    err == nil ==> !old(has(bindings, serviceName, provider)) && (old(has(owners, provider)) ==> owner == old(ownerOf(provider)))
+//@   ensures recorded: err == nil ==> has(bindings, serviceName, provider) && BIND(serviceName, provider).Deposit == deposit && BIND(serviceName, provider).Available
+//@                        && BIND(serviceName, provider).ServiceName == serviceName && BIND(serviceName, provider).Provider == bech(provider) && BIND(serviceName, provider).Owner == bech(owner)
+//@   ensures escrowed: err == nil ==> (forall d:Str :: bal(DEP, d) == old(bal(DEP, d)) + amt(deposit, d) && bal(owner, d) == old(bal(owner, d)) - amt(deposit, d))
+//@   ensures others:   forall s:Str :: forall p:Bytes :: (s != serviceName || p != provider) ==> has(bindings, s, p) == old(has(bindings, s, p)) && BIND(s, p) == old(BIND(s, p))
+//@   lemma @return depUpd(old(bindings), serviceName, provider, BIND(serviceName, provider)) if err == nil
+//@   ensures deposit_inv: err == nil && old(depositInv) ==> depositInv
 //@ end
